@@ -143,6 +143,7 @@ def run(ctx):
   exponent(ctx)
   statistics(ctx)
   block_contraction(ctx)
+  initial_values(ctx)
   # R3: which preconditioner the documented update uses - this step's accepted root (replicated) or the previous
   # refresh (sharded); a rejected / placeholder root must never be applied (gate + sentinel + refresh order)
   from . import C03, C04
@@ -152,6 +153,65 @@ def run(ctx):
   # "inverse 2k-th roots of the ridge-regularised statistics": the configured ridge / variant options reach the root routine
   from . import C01
   C01.forwarding(ctx)
+  # which parameters are preconditioned at all
+  from . import C05
+  C05.ds_excluded_parameters(ctx)
+
+
+def initial_values(ctx):
+  """R7: the history the documented recursion starts from: every statistic is matrix_epsilon * I, every dense
+  preconditioner the identity (a packed low-rank one zero), in the replicated and in the sharded initial state."""
+  from ..lib import per_param_init
+  m = ctx.model
+  cmpr = Comparer()
+  eps = sym('cfg', F, 'matrix_epsilon')
+  OP = {'preconditioner_from_params', 'shapes_for_preconditioners', '_skip_preconditioning', '_quantize_momentum', '_quantize_diagonal_statistics',
+        '_maybe_quantize_statistics', '_maybe_quantize_preconditioners', 'init_avg_grad', 'init_training_metrics'}
+
+  def first_star(t):
+    lst = t.args[1][0] if (t.op == 'call' and t.args[1]) else t
+    stars = [e for e in lst.args if e.op == 'star'] if lst.op in ('list', 'tuple') else []
+    return stars[0] if stars else None
+  # replicated
+  fi = m.func(MOD, F + '.init_fn')
+  ctx.analysed(fi)
+  ev = evaluator(m, decide=Decider(calls={('_skip_preconditioning',): False}), opaque=OP)
+  rf = rec_fields(per_param_init(ev, fi, sym('spec', 'param')))
+  if rf is None:
+    raise AnalysisError('init_fn does not build a ParameterStats record per parameter')
+  for slot, src in (('statistics', 'eps * jnp.eye(s[0])'), ('preconditioners', 'jnp.eye(s[0], s[1]) * (s[0] == s[1])')):
+    st = first_star(rf[slot])
+    ok = st is not None and st.args[1].op == 'compdom' and len(st.args[1].args) == 1
+    if ok:
+      s_ = ev.elem_of(st.args[1].args[0])
+      ok = 'shapes_for_preconditioners' in show(st.args[1].args[0], maxdepth=4) and cmpr.same(st.args[0], spec_term(ev, src, {'eps': eps, 's': s_}))
+    ctx.ob('C02.R7', fi.short, f'initial {slot}', ok,
+           f'the initial {slot} must be `{src}` for every announced shape s (eps = matrix_epsilon); got `{show(rf[slot], maxdepth=6)[:200]}`',
+           ctx.loc(fi), sample=f'{slot}[i] = {src}')
+  # sharded
+  fs = m.func(MOD, F + '.sharded_init_fn')
+  ctx.analysed(fs)
+  ev = evaluator(m, decide=Decider(calls={('_skip_preconditioning',): False}, truth={'best_effort_memory_usage_reduction': False}),
+                 opaque=OP | {'_max_statistics_size_from_params', 'precond_dim', 'exponent_for_preconditioner'})
+  ev.run(fs)
+  gs = [c for c in ev.calls if c.via == 'construct' and c.callee.endswith('.GlobalShardedParameterStats')]
+  ctx.need('C02.R7', len(gs), 1, 'GlobalShardedParameterStats constructor in sharded_init_fn')
+  sst, spr = first_star(gs[0].args['statistics']), first_star(gs[0].args['preconditioners'])
+  oks = okp = False
+  if sst is not None and spr is not None:
+    eyes = [x for x in walk(sst.args[0]) if is_ext_call(x, 'jax.numpy.eye')]
+    if eyes and eyes[0].args[1]:
+      M = eyes[0].args[1][0]
+      oks = cmpr.same(sst.args[0], spec_term(ev, 'eps * jnp.eye(M)', {'eps': eps, 'M': M})) and 'max' in show(M, maxdepth=4)
+      pds = [x for x in walk(spr.args[0]) if fn_name(x) == 'precond_dim']
+      okp = bool(pds) and pds[0].args[1] and pds[0].args[1][0] is M and \
+          cmpr.same(spr.args[0], spec_term(ev, 'jnp.eye(M, pd) * (pd == M)', {'M': M, 'pd': pds[0]}))
+  ctx.ob('C02.R7', fs.short, 'initial statistics (sharded)', oks,
+         f'the sharded initial statistics must be matrix_epsilon * eye(max_size) per announced shape; got `{show(gs[0].args["statistics"], maxdepth=5)[:200]}`',
+         ctx.loc(fs), sample='matrix_epsilon * eye(max_size)')
+  ctx.ob('C02.R7', fs.short, 'initial preconditioners (sharded)', okp,
+         f'the sharded initial preconditioners must be eye(max_size, pd) * (pd == max_size) with pd = precond_dim(max_size); got '
+         f'`{show(gs[0].args["preconditioners"], maxdepth=5)[:200]}`', ctx.loc(fs), sample='eye(max_size, pd) * (pd == max_size)')
 
 
 def transform_grad(ctx):
